@@ -36,3 +36,16 @@ package dns
 //@ extern errors.New
 //@   ensures ret0 != nil
 //@   pure
+
+// strings.LastIndexFunc has exactly one call site in the repository (IsFqdn), with the predicate
+// r != '\\'.  The contract below is the documented behaviour ("index of the last Unicode code point
+// satisfying f, or -1") specialised to that predicate: the result is the first octet of a 1-4 octet
+// UTF-8 sequence (an invalid octet counts as a 1-octet code point) that is not a backslash, and every
+// octet after that sequence is a backslash.
+//@ extern strings.LastIndexFunc
+//@   ensures 0-1 <= ret0 && ret0 < len(s)
+//@   ensures ret0 == 0-1 ==> (forall k in 0..len(s) :: s[k] == '\\')
+//@   ensures ret0 >= 0 ==> s[ret0] != '\\'
+//@   ensures ret0 >= 0 && s[ret0] < 128 ==> (forall k in ret0+1..len(s) :: s[k] == '\\')
+//@   ensures ret0 >= 0 && s[ret0] >= 128 ==> (exists w in 1..5 :: ret0 + w <= len(s) && (forall k in ret0+w..len(s) :: s[k] == '\\') && (forall k in ret0+1..ret0+w :: s[k] >= 128 && s[k] < 192))
+//@   pure
